@@ -120,6 +120,7 @@ func main() {
 		var replyJ interface{}
 		code := codes.Code(1 + r.Intn(16))
 		surplusReal := false
+		misindexedReal := false
 		env.Backend.GetLeavesByRangeFn = func(_ context.Context, req *trillian.GetLeavesByRangeRequest) (*trillian.GetLeavesByRangeResponse, error) {
 			if mode == "rpc-error" {
 				reply = fmt.Sprintf("(RCode %d)", int(code))
@@ -169,6 +170,7 @@ func main() {
 						l.Index = ls[j].Index - 1
 					}
 					ls = append(append(append([]leafT{}, ls[:j]...), l), ls[j+1:]...)
+					misindexedReal = true
 				}
 			case "small-tree":
 				if req.StartIndex >= 0 {
@@ -250,10 +252,13 @@ func main() {
 				}
 			}
 			servedJ = len(rsp.Entries)
-			if mode == "surplus" || mode == "misindexed" && len(calls) > 0 {
+			if mode == "surplus" || mode == "misindexed" {
 				// a mis-indexed or surplus reply must not be served as success
 				if surplusReal {
 					propOK, note = false, "surplus leaves served with 200"
+				}
+				if misindexedReal {
+					propOK, note = false, "mis-indexed backend reply served with 200"
 				}
 			}
 			if len(rsp.Entries) == 0 && (mode == "honest" || mode == "short") {
